@@ -414,11 +414,20 @@ func ruleMathMap(c *Ctx) {
 		good, wrong := false, false
 		allInstrs(fn, func(in ssa.Instruction) {
 			if b, ok := in.(*ssa.BinOp); ok {
-				if _, isCall := b.X.(*ssa.Call); isCall {
-					if b.Op == op {
+				// the comparison is read with the freshly checked argument on the left, whichever way it
+				// is spelled (`v > max` and `max < v` are one test)
+				_, xCall := b.X.(*ssa.Call)
+				_, yCall := b.Y.(*ssa.Call)
+				bop := b.Op
+				if yCall && !xCall && (bop == token.GTR || bop == token.LSS) {
+					bop = negateStrict(bop)
+					xCall = true
+				}
+				if xCall {
+					if bop == op {
 						good = true
 					}
-					if b.Op == negateStrict(op) {
+					if bop == negateStrict(op) {
 						wrong = true
 					}
 				}
